@@ -756,7 +756,7 @@ from contracts.c17_rust_context import rust_root  # noqa: E402
 
 CA = "src/linters/srp/class_analyzer.py::"
 OptPathT = Opt(PathT)
-SrpCtxT = Rec("LintContext", file_path=OptPathT, file_content=Opt(Str), language=Str)
+SrpCtxT = Rec("LintContext", file_path=OptPathT, file_content=Opt(Str), language=Str, metadata=Any)
 ClassAnalyzerT = Rec("ClassAnalyzer", cls=CA + "ClassAnalyzer", _python_analyzer=PyAnalyzerT,
                      _typescript_analyzer=TsAnalyzerT, _rust_analyzer=RustAnalyzerT)
 
@@ -894,6 +894,10 @@ class _SeverityValue(str):
 
 SEV_ERROR = _SeverityValue("error")   # Severity.ERROR, the only severity
 
+# same SMT sort as ViolationT (an EnumOf field is a string); natively the severity is the real Severity member
+from pyvc.api import EnumOf  # noqa: E402
+SevViolationT = ViolationT.extend(severity=EnumOf("src/core/types.py::Severity", pycls="src.core.types:Severity"))
+
 
 def srp_message(name, issues):
     """Property text: the message lists exactly the exceeded criteria (with the true counts), comma separated."""
@@ -917,7 +921,7 @@ class GenerateSuggestion:
 
 
 @contract(VB + "ViolationBuilder.build_violation", props=["C16", "C12"],
-          types=dict(self=SrpBuilderT, metrics=ClassMetrics, issues=SeqOf(Str), rule_id=Str, context=SrpCtxT), returns=ViolationT)
+          types=dict(self=SrpBuilderT, metrics=ClassMetrics, issues=SeqOf(Str), rule_id=Str, context=SrpCtxT), returns=SevViolationT)
 class SrpBuildViolation:
     def value(self, metrics, issues, rule_id, context):
         return mk(ViolationT, rule_id=rule_id, file_path=path_text(context), line=metrics["line"], column=metrics["column"],
@@ -990,7 +994,7 @@ class SrpShouldIgnore:
 
 @contract(LI + "SRPRule._create_violation_if_needed", props=["C16", "C12"],
           types=dict(self=SrpRuleT, metrics=ClassMetrics, config=SRPConfigT, context=SrpCtxT, issues=SeqOf(Str)),
-          returns=Opt(ViolationT))
+          returns=Opt(SevViolationT))
 class CreateViolationIfNeeded:
     def value(self, metrics, config, context):
         return verdict(metrics, config, context)
@@ -1109,29 +1113,111 @@ class SrpDispatchByLanguage:
         return dispatch(context, config)
 
 
-srp_config_of = uf("srp_config_of", [SrpCtxT], SRPConfigT)
+from pyvc.api import is_str_list, as_str_list  # noqa: E402
+
+DEFAULT_KEYWORDS = ["Manager", "Handler", "Processor", "Utility", "Helper"]
 
 
-@contract(LI + "SRPRule._load_config", props=["C16"], types=dict(self=SrpRuleT, context=SrpCtxT), returns=SRPConfigT,
-          assumed="generic loader load_linter_config(context, 'srp', SRPConfig) (contracted under C05 with a generic "
-                  "config record): the SRPConfig that SRPConfig.from_dict builds from the `srp` section and the file's "
-                  "language; here an uninterpreted function of the context")
+def srp_section(context):
+    """The ONLY configuration the rule consults: metadata["srp"] of the file's context ({} when absent)."""
+    return (dict(context.metadata) if isinstance(context.metadata, dict) else {}).get("srp", {})
+
+
+def srp_lang_section(context):
+    """The override section of THIS file's language ({} when the language has none)."""
+    return srp_section(context).get(context.language, {}) if context.language != "" else {}
+
+
+def srp_pick_of(context, key, default):
+    """Property text: <language>.<key> over <key> over the built-in default, for THIS file's language."""
+    return srp_lang_section(context).get(key, srp_section(context).get(key, default))
+
+
+def srp_section_ok(context):
+    """Well-typed `srp` section (what the configuration documents): int thresholds, bool switches, lists of strings."""
+    return implies(isinstance(srp_section(context), dict),
+                   isinstance(srp_lang_section(context), dict)
+                   and isinstance(srp_lang_section(context).get("max_methods", 0), int)
+                   and isinstance(srp_lang_section(context).get("max_loc", 0), int)
+                   and isinstance(srp_section(context).get("max_methods", 0), int)
+                   and isinstance(srp_section(context).get("max_loc", 0), int)
+                   and isinstance(srp_section(context).get("enabled", True), bool)
+                   and isinstance(srp_section(context).get("check_keywords", True), bool)
+                   and is_str_list(srp_section(context).get("keywords", DEFAULT_KEYWORDS))
+                   and is_str_list(srp_section(context).get("ignore", [])))
+
+
+def srp_invalid(context):
+    """Rejected configurations (ValueError): a non-positive effective threshold."""
+    return isinstance(srp_section(context), dict) and (srp_pick_of(context, "max_methods", 7) <= 0
+                                                        or srp_pick_of(context, "max_loc", 200) <= 0)
+
+
+@opaque
+def srp_cfg(context: SrpCtxT) -> SRPConfigT:
+    """THE configuration of a file: thresholds of its language (override over top level over 7 / 200) and the switches of
+    the `srp` section; the defaults when there is no (dict) section."""
+    return mk(SRPConfigT,
+              max_methods=srp_pick_of(context, "max_methods", 7) if isinstance(srp_section(context), dict) else 7,
+              max_loc=srp_pick_of(context, "max_loc", 200) if isinstance(srp_section(context), dict) else 200,
+              enabled=srp_section(context).get("enabled", True) if isinstance(srp_section(context), dict) else True,
+              check_keywords=srp_section(context).get("check_keywords", True) if isinstance(srp_section(context), dict) else True,
+              keywords=as_str_list(srp_section(context).get("keywords", DEFAULT_KEYWORDS)) if isinstance(srp_section(context), dict)
+              else DEFAULT_KEYWORDS,
+              ignore=as_str_list(srp_section(context).get("ignore", [])) if isinstance(srp_section(context), dict) else [])
+
+
+def srp_file_ignored(context, config):
+    return len(config.ignore) > 0 and any(
+        pattern in (path_str(context.file_path) if context.file_path is not None else "None") for pattern in config.ignore)
+
+
+@contract(LI + "SRPRule._load_config", props=["C16"], types=dict(self=SrpRuleT, context=SrpCtxT, metadata=Any, config_dict=Any,
+                                                                 language=Opt(Str)),
+          returns=SRPConfigT, raises=["ValueError"], inline=["load_linter_config"])
 class SrpLoadConfig:
+    """Stateless: the configuration of a file is a function of its context's `srp` section and ITS language only."""
+    def requires(self, context):
+        return srp_section_ok(context)
+
+    def raises_when(self, context):
+        return srp_invalid(context)
+
+    def reveals(self, context):
+        return reveal(srp_cfg, context)
+
     def value(self, context):
-        return srp_config_of(context)
+        return srp_cfg(context)
+
+    def ensures_thresholds_of_this_language(self, context, result):
+        return (result.max_methods == (srp_pick_of(context, "max_methods", 7) if isinstance(srp_section(context), dict) else 7)
+                and result.max_loc == (srp_pick_of(context, "max_loc", 200) if isinstance(srp_section(context), dict) else 200))
+
+    def ensures_switches(self, context, result):
+        return implies(isinstance(srp_section(context), dict),
+                       result.enabled == srp_section(context).get("enabled", True)
+                       and result.check_keywords == srp_section(context).get("check_keywords", True)
+                       and result.keywords == srp_section(context).get("keywords", DEFAULT_KEYWORDS)
+                       and result.ignore == srp_section(context).get("ignore", [])) \
+            and implies(not isinstance(srp_section(context), dict),
+                        result.enabled and result.check_keywords and result.keywords == DEFAULT_KEYWORDS and result.ignore == [])
 
 
 @contract(LI + "SRPRule.check", props=["C16"], types=dict(self=SrpRuleT, context=SrpCtxT, config=SRPConfigT),
-          returns=SeqOf(ViolationT), inline=["has_file_content"])
+          returns=SeqOf(ViolationT), raises=["ValueError"], inline=["has_file_content"])
 class SrpCheck:
-    """Nothing without content, when disabled or when the file matches an ignore pattern; else the language verdicts."""
+    """Nothing without content, when disabled or when the file matches an ignore pattern; else the verdicts of the file's
+    language under the thresholds of THAT language (a function of this context only: no state carried between files)."""
+    def requires(self, context):
+        return srp_section_ok(context)
+
+    def raises_when(self, context):
+        return context.file_content is not None and srp_invalid(context)
+
     def ensures_verdicts(self, context, result):
-        return result == (dispatch(context, srp_config_of(context))
-                          if context.file_content is not None and srp_config_of(context).enabled
-                          and not (len(srp_config_of(context).ignore) > 0 and any(
-                              pattern in (path_str(context.file_path) if context.file_path is not None else "None")
-                              for pattern in srp_config_of(context).ignore))
-                          else [])
+        return result == (dispatch(context, srp_cfg(context))
+                          if context.file_content is not None and srp_cfg(context).enabled
+                          and not srp_file_ignored(context, srp_cfg(context)) else [])
 
 
 # ====================================================================================== property-level lemmas
@@ -1232,7 +1318,7 @@ SyntaxErrorT = Rec("SyntaxErrorInfo", lineno=Opt(Int), offset=Opt(Int), msg=Str)
 
 
 @contract(CA + "ClassAnalyzer._create_syntax_error_violation", props=["C16", "C12"],
-          types=dict(self=ClassAnalyzerT, exc=SyntaxErrorT, context=SrpCtxT), returns=ViolationT)
+          types=dict(self=ClassAnalyzerT, exc=SyntaxErrorT, context=SrpCtxT), returns=SevViolationT)
 class CreateSyntaxErrorViolation:
     def ensures_points_at_the_error(self, exc, context, result):
         return (result.rule_id == "srp.syntax-error" and result.file_path == path_text(context)
